@@ -12,7 +12,7 @@ SCHEMA = [
     o_int("i", 5, 0, CB_VALID2), o_float("f", "2.5", 0, CB_VALID2), o_str("s", "d", 0, CB_VALID2), o_bool("b", 0),
     o_list("int", "il", "{10, 20}", 0, CB_VALID2), o_list("str", "sl", "{a, b}", 0, CB_VALID2), o_list("float", "fl", "{1.5}", 0, CB_VALID2),
     o_list("bool", "bl", "{true}"), o_int("ni", 0, F_NODEFAULT), o_list("int", "el", None),
-    o_int("pi", 0, F_NODEFAULT, CB_PARSE), o_ptr("p"), o_ptr("pl", F_LIST),
+    o_int("pi", 0, F_NODEFAULT, CB_PARSE), o_float("pf", "1.5", 0, CB_PARSE), o_bool("pb", 0, 0, CB_PARSE), o_list("int", "pil", None, 0, CB_PARSE), o_ptr("p"), o_ptr("pl", F_LIST),
     o_sec("single", [o_int("x", 7), o_list("int", "zl", "{1, 2}")]),
     o_sec("tm", [o_int("x", 7), o_list("int", "zl", "{1}")], F_MULTI | F_TITLE),
     o_sec("tu", [o_int("x", 7)], F_MULTI | F_TITLE | F_NO_TITLE_DUPES),
@@ -26,11 +26,12 @@ H = hx
 STATES = {
     "pristine": [],
     "set-by-parse": [["parse_buf", 1, H("i = 3\nf = 0.5\ns = x\nb = on\nil = {1, 2, 3, 4, 5}\nsl = {z}\nfl = {0.25, 4}\nbl = {no, yes}\nni = 1\nel = {9}\n"
-                                         "si = 3\nsf = 0.5\nsb = on\nss = x\np = pv\npl = {a, b}\ntm a { x = 1 zl = {3, 4} }\ntm b { }\ntu t { }\nmulti { }\nsingle { x = 2 }\n")]],
+                                         "si = 3\nsf = 0.5\nsb = on\nss = x\npi = abc\npf = q\npb = zz\npil = {u, vv}\np = pv\npl = {a, b}\ntm a { x = 1 zl = {3, 4} }\ntm b { }\ntu t { }\nmulti { }\nsingle { x = 2 }\n")]],
     "set-by-api": [["setint", 1, H("i"), 0, H("3")], ["setfloat", 1, H("f"), 0, H("0.5")], ["setstr", 1, H("s"), 0, H("x")],
                    ["setint", 1, H("il"), 0, H("1")], ["setstr", 1, H("sl"), 1, H("y")], ["addlist", 1, H("fl"), "f", 1, "0.75"],
                    ["addtsec", 1, H("tm"), H("a")], ["addtsec", 1, H("tu"), H("t")], ["setint", 1, H("el"), 0, H("4")],
-                   ["setint", 1, H("si"), 0, H("3")], ["setstr", 1, H("ss"), 0, H("x")]],
+                   ["setint", 1, H("si"), 0, H("3")], ["setstr", 1, H("ss"), 0, H("x")],
+                   ["getopt", 1, H("pi"), 8], ["setopt", 1, 8, H("abc")], ["setfloat", 1, H("pf"), 0, H("0.5")], ["setbool", 1, H("pb"), 0, H("1")]],
     "emptied": [["parse_buf", 1, H("il = {}\nsl = {}\nfl = {}\nbl = {}\ntm a { zl = {} }\n")]],
     "annotated-pristine": [["setcomment", 1, H(n), H("annotation of " + n)] for n in ("i", "f", "s", "b", "il", "sl", "fl", "bl", "ni", "el")] +
                           [["addtsec", 1, H("tm"), H("a")]],
@@ -71,6 +72,10 @@ def refusing_calls():
     C.append(("setmulti pi parse-callback-refuses", [["cbfail", 2], ["setmulti", 1, H("pi"), 3, H("a"), H("b"), H("c")], ["cbfail", 0]], "pi"))
     C.append(("setmulti pl parse-callback-refuses", [["cbfail", 3], ["setmulti", 1, H("pl"), 3, H("a"), H("b"), H("c")], ["cbfail", 0]], "pl"))
     C.append(("setopt p parse-callback-refuses", [["getopt", 1, H("p"), 9], ["cbfail", 1], ["setopt", 1, 9, H("zz")], ["cbfail", 0]], "p"))
+    # (the executor's callback writes to its result before it refuses)
+    for nm in ("pi", "pf", "pb", "pil"):
+        C.append(("setopt %s parse-callback-refuses" % nm, [["getopt", 1, H(nm), 9], ["cbfail", 1], ["setopt", 1, 9, H("zz")], ["cbfail", 0]], nm))
+        C.append(("setmulti %s parse-callback-refuses" % nm, [["cbfail", 1], ["setmulti", 1, H(nm), 1, H("zz")], ["cbfail", 0]], nm))
     # vetoed by the pre-set validation callback
     for path, idxs in (("i", [0]), ("il", [0, 1, 2, 7])):
         for idx in idxs:
